@@ -21,7 +21,8 @@ THEOREMS = ["rw_identity", "rw_items", "rw_total", "rw_significant", "rw_hints",
             "shortChars_decode", "shortnames_inj", "shortName_class", "pkg_local_disjoint", "short_not_reserved",
             "do_is_a_candidate", "names_distinct", "names_fresh", "firstFree_total", "newVariable_total",
             "ident_needsSpace", "ws_between_idents_kept", "old_needsSpace_counterexample", "old_varptr_counterexample",
-            "varPtrName_cached", "wrapper_tail_stripped", "junction_examples"]
+            "varPtrName_cached", "wrapper_tail_stripped", "junction_examples",
+            "objectName_assigned", "objectName_new", "root_only_allocation_breaks"]
 
 KW = ["abstract", "arguments", "await", "async", "boolean", "break", "byte", "case", "catch", "char", "class", "const",
       "continue", "debugger", "default", "delete", "do", "double", "else", "enum", "eval", "export", "extends", "false",
@@ -214,6 +215,7 @@ def gen_name_script(rng, minify, big):
             "été", "v 1", "café·x", "$ptr", "_", "x$1"]
     disciplined = True
     nreq = 0
+    objs = []
     fvars = []          # identities of function-level variables whose address is taken (shared by generic instances)
     target = big if big else rng.choice([5, 30, 120])
     if big:
@@ -234,7 +236,19 @@ def gen_name_script(rng, minify, big):
             nreq += 1
         elif k < 0.10 and len(stack) > 1:
             stack.pop()
-        elif k < 0.22 and not big:
+        elif k < 0.30 and not big:
+            # objectName: a named type declared in the function being translated (package-level in the generated code) or a
+            # local; asked for again later in the same or a nested context
+            if objs and rng.random() < 0.4:
+                oid, oname, opk = rng.choice(objs)
+            else:
+                opk = 1 if rng.random() < 0.6 else 0
+                oid = len(objs) + (0 if opk else 50000)
+                oname = rng.choice(["point", "T", "item", "v", "err"]) if opk else rng.choice(["x", "i", "err"])
+                objs.append((oid, oname, opk))
+            lines.append("nm obj %d %d %s %d" % (stack[-1], oid, hx(oname.encode()), opk))
+            nreq += 1
+        elif k < 0.38 and not big:
             # &v: a new variable, or one already seen (the same object in another instantiation / a nested literal)
             if rng.random() < 0.15:
                 vid = 100000 + rng.randrange(4)
@@ -264,6 +278,40 @@ def gen_name_script(rng, minify, big):
     for s in stack:
         lines.append("nm locals %d" % s)
     return lines, disciplined
+
+
+def local_type_script(minify, depth, ntypes, nanon):
+    """The shape of `type point struct{…}` declared in a function body (possibly inside nested literals), each followed by
+    package-level allocations made from the same context: anonymous types built from it, function literals."""
+    lines = ["nm new %d" % (1 if minify else 0)]
+    for i in range(3):
+        lines.append("nm req 0 %s 1" % hx(("g%d" % i).encode()))
+    sid = 0
+    nxt = 1
+    oid = 0
+    for d in range(depth):
+        lines.append("nm child %d %s" % (sid, hx(("f.func%d" % d).encode() if d else b"f")))
+        sid = nxt
+        nxt += 1
+        for t in range(ntypes):
+            lines.append("nm obj %d %d %s 1" % (sid, oid, hx(("point%d" % t).encode())))
+            for a in range(nanon):
+                lines.append("nm req %d %s 1" % (sid, hx(rng_free_anon(a).encode())))     # sliceType, ptrType, … variables
+            lines.append("nm obj %d %d %s 1" % (sid, oid, hx(("point%d" % t).encode())))
+            lines.append("nm req %d %s 0" % (sid, hx(b"pts")))
+            oid += 1
+    for s_ in range(sid, -1, -1):
+        lines.append("nm locals %d" % s_)
+        lines.append("nm obj %d 0 %s 1" % (s_, hx(b"point0")))
+        break
+    lines.append("nm child 0 " + hx(b"other"))
+    lines.append("nm obj %d 0 %s 1" % (nxt, hx(b"point0")))
+    lines.append("nm req %d %s 1" % (nxt, hx(b"sliceType")))
+    return lines, True
+
+
+def rng_free_anon(a):
+    return ["sliceType", "ptrType", "mapType", "arrayType", "funcType", "structType"][a % 6]
 
 
 def generic_ptr_script(minify, nbefore, nafter, ninst):
@@ -321,6 +369,17 @@ def names_oracle(lines, answers):
             while stack[-1] != int(w[2]):       # scopes popped by the history are dead
                 locs.pop(stack.pop())
             new, is_pkg = ans, w[4] == "1"
+        elif w[1] == "obj":
+            while stack[-1] != int(w[2]):
+                locs.pop(stack.pop())
+            key = ("obj", w[3])
+            vis = set(pkg)
+            for s_ in stack:
+                vis.update(locs[s_])
+            if ptrs.get(key) == ans and ans in vis:
+                continue
+            ptrs[key] = ans
+            new, is_pkg = ans, w[5] == "1"
         elif w[1] == "ptr":
             while stack[-1] != int(w[2]):
                 locs.pop(stack.pop())
@@ -783,6 +842,109 @@ def prog_generic_ptr(rng):
     return "\n".join(L) + "\n"
 
 
+def prog_localtypes(rng):
+    """Named types declared in function bodies (struct, named slice, named func; several per function; also inside function
+    literals, generic functions and methods), each followed by the FIRST use of fresh anonymous types built from them and by
+    function literals — so package-level JS names (the local types, the anonymous-type variables, the literals' own names)
+    are allocated from inside function contexts."""
+    n = pick_names(rng, 14, avoid=("k", "v", "T", "r", "s", "i", "t", "main", "recv", "gen", "plain", "nested"))
+    a, b, c = rng.randrange(1, 9), rng.randrange(1, 9), rng.randrange(2, 6)
+
+    def uses(ty, mk, fld, tag, only=None):
+        """statements that use fresh anonymous types built from the local type `ty` (value expression `mk`, int field `fld`)"""
+        forms = [
+            ["xs%s := []%s{%s, %s}" % (tag, ty, mk, mk), "s += len(xs%s) + xs%s[1]%s" % (tag, tag, fld)],
+            ["p%s := &[]%s{%s}[0]" % (tag, ty, mk), "s += (*p%s)%s" % (tag, fld)],
+            ["m%s := map[string]%s{\"a\": %s}" % (tag, ty, mk), "s += m%s[\"a\"]%s + len(m%s)" % (tag, fld, tag)],
+            ["ar%s := [3]%s{%s}" % (tag, ty, mk), "s += ar%s[0]%s + len(ar%s)" % (tag, fld, tag)],
+            ["fn%s := func(q %s) int { return q%s * 2 }" % (tag, ty, fld), "s += fn%s(%s)" % (tag, mk)],
+            ["st%s := struct{ in %s; n int }{%s, 7}" % (tag, ty, mk), "s += st%s.in%s + st%s.n" % (tag, fld, tag)],
+            ["ch%s := make(chan %s, 1)" % (tag, ty), "ch%s <- %s" % (tag, mk), "s += (<-ch%s)%s" % (tag, fld)],
+            ["pp%s := new(%s)" % (tag, ty), "*pp%s = %s" % (tag, mk), "s += (*pp%s)%s" % (tag, fld)],
+            ["var if%s interface{} = %s" % (tag, mk), "if w, ok := if%s.(%s); ok { s += w%s }" % (tag, ty, fld)],
+        ]
+        if only is not None:
+            forms = [forms[i] for i in only]
+        rng.shuffle(forms)
+        out = []
+        for f in forms[:rng.randrange(2, 6)]:
+            out += f
+        return out
+
+    L = ["package main", "", "type recv struct{ base int }", ""]
+    # a plain function with several local types
+    L.append("func plain(k int) int {")
+    L.append("\ts := 0")
+    L.append("\ttype %s struct{ x, y int }" % n[0])
+    for st in uses(n[0], "%s{k, %d}" % (n[0], a), ".x", "A"):
+        L.append("\t" + st)
+    L.append("\ttype %s []int" % n[1])
+    for st in uses(n[1], "%s{k, %d, %d}" % (n[1], a, b), "[1]", "B"):
+        L.append("\t" + st)
+    L.append("\ttype %s func(int) int" % n[2])
+    L.append("\top := %s(func(v int) int { return v*%d + k })" % (n[2], c))
+    L.append("\tops := []%s{op, func(v int) int { return v - -k }}" % n[2])
+    L.append("\tfor _, f := range ops { s += f(%d) }" % b)
+    L.append("\treturn s")
+    L.append("}")
+    L.append("")
+    # local types inside nested function literals
+    L.append("func nested(k int) int {")
+    L.append("\ts := 0")
+    L.append("\ttype %s struct{ v int }" % n[3])
+    L.append("\touter := func(d int) int {")
+    L.append("\t\ttype %s struct{ w int; in %s }" % (n[4], n[3]))
+    L.append("\t\tys := []%s{{d, %s{k}}, {d + 1, %s{k + 1}}}" % (n[4], n[3], n[3]))
+    L.append("\t\tinner := func() int {")
+    L.append("\t\t\ttype %s map[int]%s" % (n[5], n[4]))
+    L.append("\t\t\tmm := %s{1: ys[0], 2: ys[1]}" % n[5])
+    L.append("\t\t\tzs := [][]%s{ys}" % n[4])
+    L.append("\t\t\treturn mm[2].w + mm[1].in.v + len(zs[0])")
+    L.append("\t\t}")
+    L.append("\t\treturn inner() + ys[1].in.v")
+    L.append("\t}")
+    for st in uses(n[3], "%s{k + %d}" % (n[3], a), ".v", "C"):
+        L.append("\t" + st)
+    L.append("\treturn s + outer(%d)" % b)
+    L.append("}")
+    L.append("")
+    # generic function and method
+    L.append("func gen[T any](t T, k int) int {")
+    L.append("\ts := 0")
+    L.append("\ttype %s struct{ val T; n int }" % n[6])
+    # (composite literals of slices/maps of a type nested in a generic function make the compiler panic in BOTH builds —
+    #  a generics defect outside C16 — so only the forms that compile are used here)
+    for st in uses(n[6], "%s{t, k + %d}" % (n[6], a), ".n", "G", only=[4, 6, 8]):
+        L.append("\t" + st)
+    L.append("\ttype %s struct{ n int }" % n[7])
+    for st in uses(n[7], "%s{k * %d}" % (n[7], c), ".n", "D", only=[4, 6, 8]):
+        L.append("\t" + st)
+    L.append("\treturn s")
+    L.append("}")
+    L.append("")
+    L.append("func (r recv) meth(k int) int {")
+    L.append("\ts := r.base")
+    L.append("\ttype %s struct{ a, b int }" % n[8])
+    for st in uses(n[8], "%s{k, r.base}" % n[8], ".b", "E"):
+        L.append("\t" + st)
+    L.append("\ttype %s [2]%s" % (n[9], n[8]))
+    L.append("\tpr := %s{{1, 2}, {k, %d}}" % (n[9], b))
+    L.append("\tcmp := func(u, v %s) bool { return u[1].a < v[1].a }" % n[9])
+    L.append("\tif cmp(pr, %s{{0, 0}, {k + 1, 0}}) { s += pr[1].b }" % n[9])
+    L.append("\treturn s")
+    L.append("}")
+    L.append("")
+    L.append("func main() {")
+    calls = ["println(plain(%d))" % rng.randrange(1, 9), "println(nested(%d))" % rng.randrange(1, 9),
+             "println(gen[int](1, %d), gen[string](\"s\", %d), gen[[]int](nil, %d))" % (rng.randrange(1, 9), rng.randrange(1, 9), rng.randrange(1, 9)),
+             "println(recv{%d}.meth(%d))" % (rng.randrange(1, 9), rng.randrange(1, 9))]
+    rng.shuffle(calls)
+    for cl in calls:
+        L.append("\t" + cl)
+    L.append("}")
+    return "\n".join(L) + "\n"
+
+
 LEGAL_LINE = ["//! %s v1.2.0 | (c) ACME | MIT license", "// @license %s MIT", "// @preserve %s keep me", "//! %s"]
 LEGAL_BLOCK = ["/*! %s (c) ACME */", "/** @license %s\n * MIT\n */", "/* @preserve %s */"]
 
@@ -872,7 +1034,7 @@ def gen_programs(rng, tier):
 
     def add(kind, src):
         jobs.append({"id": "%s%d" % (kind, len(jobs)), "files": {"main.go": src}, "variants": ["plain", "minify"], "native": True,
-                     "timeout": 30, "kind": kind})
+                     "timeout": 30, "kind": kind, "keep_js": True})
     sizes = [30, 730] if tier == "quick" else [5, 27, 30, 60, 120, 703, 730, 800, 1000]
     for n in sizes:
         add("manyvars", prog_manyvars(rng, n))
@@ -886,6 +1048,8 @@ def gen_programs(rng, tier):
         add("nonascii", prog_nonascii(rng))
     for _ in range(2 if tier == "quick" else 8):
         add("genericptr", prog_generic_ptr(rng))
+    for _ in range(3 if tier == "quick" else 12):
+        add("localtypes", prog_localtypes(rng))
     for _ in range(4 if tier == "quick" else 24):
         files, expect = prog_incjs(rng)
         jobs.append({"id": "incjs%d" % len(jobs), "files": files, "variants": ["plain", "minify"], "native": False,
@@ -911,6 +1075,95 @@ def run_programs(jobs):
         for i, r in zip(redo, again):
             results[i] = r
     return results
+
+
+
+_IDENT = r"[A-Za-z_$][A-Za-z0-9_$]*"
+_TYPECTORS = ("newType", "sliceType", "ptrType", "mapType", "arrayType", "funcType", "structType", "chanType", "interfaceType")
+
+
+def _split_top(text):
+    """split at commas that are not inside brackets or strings"""
+    out, depth, cur, i, n = [], 0, [], 0, len(text)
+    while i < n:
+        ch = text[i]
+        if ch == '"':
+            j = i + 1
+            while j < n and text[j] != '"':
+                j += 2 if text[j] == "\\" else 1
+            cur.append(text[i:j + 1])
+            i = j + 1
+            continue
+        if ch in "([{":
+            depth += 1
+        elif ch in ")]}":
+            depth -= 1
+        if ch == "," and depth == 0:
+            out.append("".join(cur))
+            cur = []
+        else:
+            cur.append(ch)
+        i += 1
+    out.append("".join(cur))
+    return out
+
+
+def _stmt_end(js, i):
+    """index of the `;` that ends the statement starting at i (brackets and strings skipped)"""
+    depth, n = 0, len(js)
+    while i < n:
+        ch = js[i]
+        if ch == '"':
+            i += 1
+            while i < n and js[i] != '"':
+                i += 2 if js[i] == "\\" else 1
+        elif ch in "([{":
+            depth += 1
+        elif ch in ")]}":
+            depth -= 1
+            if depth < 0:
+                return i
+        elif ch == ";" and depth == 0:
+            return i
+        i += 1
+    return n
+
+
+def js_structure(js):
+    """Structure tie on the generated (minified) packages: (1) no `var` statement declares the same identifier twice;
+    (2) inside one package no variable is assigned two different type-constructor values ($newType, $sliceType, …).
+    Only the generated package code (from the first `$packages["…"]=` on) is looked at, not the prelude."""
+    import re
+    bad = []
+    start = js.find('$packages["')
+    if start < 0:
+        return ["no package code found"]
+    code = js[start:]
+    for m in re.finditer(r"(?<![A-Za-z0-9_$.])var[ {]", code):
+        i = m.end() - 1
+        e = _stmt_end(code, i)
+        body = code[i:e].strip()
+        names = []
+        if body.startswith("{"):
+            close = body.find("}")
+            names = [x.strip() for x in body[1:close].split(",") if x.strip()]
+        else:
+            for part in _split_top(body):
+                mm = re.match(r"\s*(" + _IDENT + ")", part)
+                if mm:
+                    names.append(mm.group(1))
+        dup = sorted({x for x in names if names.count(x) > 1})
+        if dup:
+            bad.append("var statement declares %s twice: var %s" % (",".join(dup), body[:120]))
+    for seg in re.split(r'(?=\$packages\["[^"]*"\]\s*=\s*\(function\(\))', code):
+        vals = {}
+        for m in re.finditer(r"(?<![A-Za-z0-9_$.\]])(" + _IDENT + r")\s*=\s*\$(" + "|".join(_TYPECTORS) + r")\(", seg):
+            e = _stmt_end(seg, m.end())
+            vals.setdefault(m.group(1), set()).add(seg[m.start(2) - 1:e][:300])
+        for v, texts in vals.items():
+            if len(texts) > 1:
+                bad.append("variable %s is assigned %d different type values: %s" % (v, len(texts), " | ".join(sorted(texts))[:300]))
+    return bad
 
 
 def node_check(js):
@@ -1032,7 +1285,7 @@ def run(tier, seed):
     # ---- (c) programs first (their Decl code feeds (a)) --------------------------------------------------------
     jobs = gen_programs(rng, tier)
     jobs.append({"id": "witness-console", "files": {"main.go": WITNESS_CONSOLE}, "variants": ["plain", "minify"], "native": True,
-                 "kind": "witness"})
+                 "kind": "witness", "keep_js": True})
     import time
     t_phase = time.time()
     phases = {}
@@ -1065,6 +1318,12 @@ def run(tier, seed):
             raise RuntimeError("generated program %s does not compile natively: %s\n%s" % (j["id"], nat[1], op[:2000]))
         chk.add_case("programs", op, kindkey="prog:%s:%s" % (j["kind"].split("-")[0], m[1].split(":")[0]),
                      sample={"tie": "programs", "op": op[:300], "impl": str(m)[:300], "model": str(nat)[:300]})
+        for variant in ("minify", "plain"):
+            for b in js_structure(runs[variant].get("js", "")):
+                chk.add_mismatch("js-structure", op, "%s build: %s" % (variant, b), "every JS scope declares an identifier once; one type value per package-level variable",
+                                 signature="C16 js-structure duplicate")
+                break
+        chk.count("js-structure:checked")
         if j["kind"] == "witness":
             if p != m:
                 chk.add_mismatch("programs", op, "plain=%s minify=%s" % (p, m), str(nat),
@@ -1126,6 +1385,10 @@ def run(tier, seed):
         for nb, na, ni in ([(1, 2, 2), (0, 1, 3), (3, 3, 2)] if tier == "quick" else
                            [(a, b, c) for a in range(4) for b in range(4) for c in (2, 3)]):
             scripts.append(generic_ptr_script(minify, nb, na, ni))
+    for minify in (True, False):
+        for dp, nt, na in ([(1, 1, 2), (2, 2, 1), (3, 1, 3)] if tier == "quick" else
+                           [(a, b, c) for a in (1, 2, 3) for b in (1, 2, 3) for c in (0, 1, 2, 4)]):
+            scripts.append(local_type_script(minify, dp, nt, na))
     if tier == "thorough":
         scripts.append(gen_name_script(rng, True, 5000))
     nm_ops = list(ops)
@@ -1136,7 +1399,7 @@ def run(tier, seed):
     impl = C.run_gvh_lines(["ops"], nm_ops, name="gvh_c16")
     model = C.run_driver("C16", nm_ops)
     chk.compare("newVariable", nm_ops, impl, model,
-                kind=lambda o, a: "nm:" + o.split()[1] + (":pkg" if o.split()[1] in ("req", "ptr") and o.endswith(" 1") else ""))
+                kind=lambda o, a: "nm:" + o.split()[1] + (":pkg" if o.split()[1] in ("req", "ptr", "obj") and o.endswith(" 1") else ""))
     maxscope = 0
     for lo, hi, disc, minify in spans:
         if disc:
